@@ -9,6 +9,14 @@ from pyvc.externals_aeon import TGraph, TNetObj, net_of, bn_net_of
 from . import sd_inv as S
 
 SD = HeapParam("SD")
+
+
+def split_and(name, conj):
+    """a conjunction as separately named (and separately discharged, cumulative) clauses"""
+    if z3.is_and(conj):
+        return [(f"{name}.{k}", g) for k, g in enumerate(conj.children())]
+    return [(name, conj)]
+
 i, j, x, y = z3.Int("i"), z3.Int("j"), z3.Int("x"), z3.Int("y")
 OptInt = TOpt(TInt)
 LS, LI = M.LS, M.LI
@@ -630,7 +638,7 @@ def _install_skip2(reg):
             ("skip_node_or_minimal", z3.Implies(r, z3.Or(
                 z3.And(v.skipped[n], cleared(v, n)),
                 z3.And(z3.Not(v.skipped[n]), v.succsig[n] == S.nosucc, S.frame_nodes(v, o, fields=("cand", "seeds", "sets")))))),
-            ("others", others(v, o, n)),
+            *split_and("others", others(v, o, n)),
         ] + [("inv." + nm, g) for nm, g in S.inv(v)]
 
     def stm_loop(c):
@@ -639,7 +647,7 @@ def _install_skip2(reg):
             ("node_in_progress", z3.And(z3.Not(v.expanded[n]), z3.Not(v.skipped[n]), cleared(v, n), v.space[n] == o.space[n], S.valid(v, n),
                                         z3.Or(v.ppn[n] == o.ppn[n], v.ppn[n] == M.OptPN.some(T.RestrictPN(o.pn, o.space[n]))))),
             ("signature_so_far", v.succsig[n] == S.FoldSig(N(o), c.coll, c.i)),
-            ("others", others(v, o, n)),
+            *split_and("others", others(v, o, n)),
         ]
 
     reg.add(Contract(
@@ -651,7 +659,7 @@ def _install_skip2(reg):
         may_raise={"RuntimeError": {"modifies": {"self": ["ppn"]}}},
         raises={"RuntimeError": [("inv_kept", lambda c: S.inv_all(c.self)), ("still_unexpanded", lambda c: z3.Not(c.self.expanded[c.node_id]))]},
         ensures=[(nm, pick(stm_post, nm)) for nm in ["false_iff_already_expanded", "noop_if_already_expanded", "node_expanded",
-                                                      "skip_node_or_minimal", "others"] + ["inv." + x for x in INVN]],
+                                                      "skip_node_or_minimal"] + [f"others.{k}" for k in range(10)] + ["inv." + x for x in INVN]],
         lemmas=[("L4+L5.min_traps_restricted+L3.min_trap_facts", lem_min),
                 ("def.SkipOK", lambda c: S.skipok_intro(N(c.self), c.old.self.space[c.node_id], c.minimal_traps, c.self.succsig[c.node_id]))],
         loops={0: LoopContract("for m_trap in minimal_traps", stm_loop, havoc_heap={"self": ALLF})},
